@@ -772,6 +772,10 @@ impl Thread {
         {
             let mut context = vm.owned_context();
             StackFrame::<State>::new_frame(&mut context.stack, 0, State::Unknown).unwrap();
+            // The limits of a thread also apply to the threads that are created from it (the memory
+            // limit is inherited by `new_child_gc`)
+            let max_stack_size = self.owned_context().stack.max_stack_size();
+            context.stack.set_max_stack_size(max_stack_size);
         }
         let ptr = {
             let mut context = self.context();
